@@ -234,6 +234,10 @@ def plan(run):
             zc.append({'I': I, 'S': 0, 'nz': 9, 'route': 'numpy-reblock'})
         if j % 16 == 3 or I in (125, 250, 500, 1001):
             zc.append({'I': I, 'S': starts[j % 5], 'nz': 24, 'route': 'numpy-crop2'})
+    # traces that run past 2^31 microseconds (a coarse but legal interval, very many samples): the axis is not 32-bit microsecond arithmetic
+    zc.append({'I': 65535, 'S': 0, 'nz': 33000, 'route': 'numpy'})
+    zc.append({'I': 50000, 'S': 8, 'nz': 45000, 'route': 'numpy'})
+    zc.append({'I': 60000, 'S': 0, 'nz': 40000, 'route': 'segy'})
     # two vertical crops where the first starts between whole milliseconds and the second ends up on / off one
     for I in (125, 375, 625, 250, 1125, 50):
         for S in (0, -1, 8):
